@@ -116,6 +116,7 @@ let () =
          let o = reopen files mode in
          let b = Buffer.create 256 in
          (match o.ro_vse with
+          | Inr EPanic -> Buffer.add_string b "vse=panic"
           | Inr e -> Buffer.add_string b ("vse=err:" ^ err_str e)
           | Inl l ->
             Buffer.add_string b ("vse=" ^ (if l = [] then "-" else
